@@ -19,7 +19,7 @@ PROP = "C13"
 LEVEL = "exploration"
 BUDGET = {"quick": 200, "thorough": 900}
 RULE = ("2-4 actors (reused Parser, fresh Parsers, FiltersSet editor incl. extension-bound tags such as :regex/:count/:value/"
-        ":copy/:create/:flags, reloader = parse, then - other actors' calls later - from_parser_result + render), histories of 4-30 whole public calls, the "
+        ":copy/:create/:flags, reloader = parse, then - other actors' calls later - from_parser_result + render), histories of 4-30 whole public calls (one run in sixteen: a marathon of 40-100 mostly failing parses on one reused Parser), the "
         "interleaving drawn by the scheduler; scripts from a pool of valid scripts with different require sets, invalid "
         "scripts of each error class, valid scripts truncated at a drawn byte (so that a parse ends mid-construct) and valid scripts with one tag replaced by a tag borrowed from another command. "
         "Baselines: each parse alone in a freshly forked pristine child; each editor/reloader history alone in a freshly "
@@ -33,6 +33,7 @@ ASSUMPTIONS = ["granularity is whole public calls (the property speaks of what o
 
 VALID = [
     'keep;\n',
+    'require "fileinto";\nif true {\n  if header :is "A" "b" {\n    if size :over 1K {\n      if exists "X" {\n        if true { fileinto "deep"; }\n      }\n    }\n  } else {\n    if true { if true { if true { keep; } } }\n  }\n}\n',
     'require "fileinto";\nif header :contains "Subject" "x" { fileinto "F"; }\n',
     'require ["fileinto", "copy"];\n# c1\nif anyof (header :is "A" "b", size :over 100K) {\n    fileinto :copy "X";\n    stop;\n}\n',
     'require ["regex", "fileinto"];\nif header :regex "Subject" "^a.*b$" { fileinto "R"; }\n',
@@ -263,9 +264,9 @@ TAGS = [":over", ":under", ":is", ":contains", ":matches", ":regex", ":count", "
 _TAG_RE = None
 
 
-def draw_script(wl, label, classes):
+def draw_script(wl, label, classes, marathon=False):
     global _TAG_RE
-    k = wl.weighted(label + ".class", [4, 3, 3, 2])
+    k = wl.weighted(label + ".class", [1, 1, 8, 1] if marathon else [4, 3, 3, 2])
     if k == 3:
         # a valid script with one tag replaced by a tag borrowed from another command: mostly invalid, sometimes valid,
         # always presenting a tag to a command that does not usually see it
@@ -286,8 +287,12 @@ def draw_script(wl, label, classes):
         classes.add("invalid")
         return INVALID[wl.int(label + ".invalid", len(INVALID))]
     base = VALID[wl.int(label + ".valid", len(VALID))]
+    if marathon and wl.flag(label + ".deep", 2, 3):
+        base = VALID[1]        # the deeply nested script: a parse cut inside it leaves several blocks open
     raw = base.encode("utf-8")
     cut = 1 + wl.int(label + ".cut", max(1, len(raw) - 1))
+    if marathon:
+        cut = max(1, cut - cut % 5)      # a coarser grid of cut points keeps the pristine-baseline cache effective
     classes.add("truncated")
     # bytes, not text: a cut inside a multi-byte character makes the script invalid UTF-8, which is one more way
     # for a parse to end badly
@@ -299,14 +304,21 @@ def run(ch, config, res):
     assert_pristine()
     classes = set()
     with ch.scope("run"):
-        nsteps = 4 + wl.int("nsteps", 27)
-        actors = ["reused", "fresh"]
-        if wl.flag("editor", 3, 4):
-            actors.append("editor0")
-        if wl.flag("reloader", 1, 2):
-            actors.append("reload")
-        if wl.flag("editor2", 1, 4):
-            actors.append("editor1")
+        marathon = wl.flag("marathon", 1, 16)
+        if marathon:
+            # one Parser object fed a long series of scripts, most of them ending badly: state that only builds up
+            # over many failed parses (a counter that is not reset, a stack that is not emptied)
+            nsteps = 40 + wl.int("nsteps_long", 61)
+            actors = ["reused", "reused", "reused", "fresh"]
+        else:
+            nsteps = 4 + wl.int("nsteps", 27)
+            actors = ["reused", "fresh"]
+            if wl.flag("editor", 3, 4):
+                actors.append("editor0")
+            if wl.flag("reloader", 1, 2):
+                actors.append("reload")
+            if wl.flag("editor2", 1, 4):
+                actors.append("editor1")
     plan = []
     reload_pending = [False]
     for i in range(nsteps):
@@ -320,7 +332,7 @@ def run(ch, config, res):
                     plan.append(("reload-parse", draw_script(wl, "script", classes)))
                     reload_pending[0] = True
             elif a in ("reused", "fresh"):
-                plan.append((a, draw_script(wl, "script", classes)))
+                plan.append((a, draw_script(wl, "script", classes, marathon)))
             else:
                 eid = int(a[-1])
                 k = wl.weighted("op", [5, 2, 1, 1, 1, 1])
